@@ -3,7 +3,8 @@
    splitter, for an arbitrary sequence of blocks read from gpg's stdout and an arbitrary request-size limit. *)
 From Coq Require Import List Arith NArith Bool.
 Import ListNotations.
-Require Import Chunk Splitter Splitter3 Md5 Compose Compose2.
+Require Import Chunk Splitter Splitter3 Md5 Compose Compose2 Compose3.
+Require Providers2 Dropbox2.
 
 (* limited requests (Dropbox): the request bodies are the stream cut at the limit, in order, at contiguous offsets from 0;
    their concatenation is the stream; the finalisation carries the stream's length and the block-wise checksum *)
@@ -38,5 +39,46 @@ Check C04_upload_stream_exact_unlimited :
     splitter None budget (reader_md5 Hmd5 blocks) = (es0 ++ [EEof (length (concat blocks)) (Hmd5 (concat blocks))], ROk) /\
     bodies (es0 ++ [EEof (length (concat blocks)) (Hmd5 (concat blocks))]) = one_body 0 (concat blocks).
 
+(* composed with the Dropbox upload machine (C05), for ANY server replies and any server-side checksum function: if the final name
+   changes at all, the object under it is exactly the concatenation of the blocks the encryptor produced, the call succeeded, and the
+   server's checksum of that object is the provider checksum vsb computed *)
+Theorem C04_final_object_is_stream :
+  forall (H : list N -> list N) (blk : nat) (beqb : Providers2.bytes -> Providers2.bytes -> bool),
+  (forall a b, reflect (a = b) (beqb a b)) ->
+  forall reply Hsrv blocks m s s' res, m >= 1 ->
+  Dropbox2.dropbox reply Hsrv beqb
+    (cevs_of (from_off 0 (chunks m (concat blocks))) (length (concat blocks)) (spec H blk (concat blocks))) s = (s', res) ->
+  Dropbox2.dfinal s' <> Dropbox2.dfinal s ->
+  Dropbox2.dfinal s' = Some (concat blocks) /\ res = true /\ Hsrv (concat blocks) = spec H blk (concat blocks).
+Proof. exact final_object_is_stream. Qed.
+Check C04_final_object_is_stream :
+  forall (H : list N -> list N) (blk : nat) (beqb : Providers2.bytes -> Providers2.bytes -> bool),
+  (forall a b, reflect (a = b) (beqb a b)) ->
+  forall reply Hsrv blocks m s s' res, m >= 1 ->
+  Dropbox2.dropbox reply Hsrv beqb
+    (cevs_of (from_off 0 (chunks m (concat blocks))) (length (concat blocks)) (spec H blk (concat blocks))) s = (s', res) ->
+  Dropbox2.dfinal s' <> Dropbox2.dfinal s ->
+  Dropbox2.dfinal s' = Some (concat blocks) /\ res = true /\ Hsrv (concat blocks) = spec H blk (concat blocks).
+
+(* ... and against an honest server (every request succeeds, offsets checked, content hash = the provider's function) the upload
+   does succeed and publishes exactly that object, leaving no temporary behind *)
+Theorem C04_honest_upload_publishes_stream :
+  forall (H : list N -> list N) (blk : nat),
+  forall (beqb : Providers2.bytes -> Providers2.bytes -> bool), (forall a b, reflect (a = b) (beqb a b)) ->
+  forall blocks m s, m >= 1 -> Dropbox2.dfinal s = None ->
+  exists s', Dropbox2.dropbox (fun _ => Providers2.Ok) (spec H blk) beqb
+               (cevs_of (from_off 0 (chunks m (concat blocks))) (length (concat blocks)) (spec H blk (concat blocks))) s = (s', true) /\
+             Dropbox2.dfinal s' = Some (concat blocks) /\ Dropbox2.dtemp s' = None.
+Proof. exact honest_upload_publishes_stream. Qed.
+Check C04_honest_upload_publishes_stream :
+  forall (H : list N -> list N) (blk : nat),
+  forall (beqb : Providers2.bytes -> Providers2.bytes -> bool), (forall a b, reflect (a = b) (beqb a b)) ->
+  forall blocks m s, m >= 1 -> Dropbox2.dfinal s = None ->
+  exists s', Dropbox2.dropbox (fun _ => Providers2.Ok) (spec H blk) beqb
+               (cevs_of (from_off 0 (chunks m (concat blocks))) (length (concat blocks)) (spec H blk (concat blocks))) s = (s', true) /\
+             Dropbox2.dfinal s' = Some (concat blocks) /\ Dropbox2.dtemp s' = None.
+
 Print Assumptions C04_upload_stream_exact.
 Print Assumptions C04_upload_stream_exact_unlimited.
+Print Assumptions C04_final_object_is_stream.
+Print Assumptions C04_honest_upload_publishes_stream.
